@@ -22,6 +22,7 @@ LEVEL_TEXT = (
     "consumer expects - pickle.load returns Any, so no type checker sees this - and the reader keeps no cache keyed by the "
     "folder name. Decided for all line-ups and replacement sequences because none of the rules depends on values."
     " Every store of the sampler line-up takes a private copy (a caller's list mutated later would renumber labels), and the scheduler pickle is written before the labels that refer to it."
+    ' Included: one label per recorded sample needs sample() to return exactly batch_size rows (C12 shape rules), and the results table is rewritten whole on every save, never appended to (C04-R4b).'
 )
 TECHNIQUE = "guarded-store / monotonicity rule on the id table + persisted-domain membership + pickle channel typing across writer and reader"
 
